@@ -14,6 +14,10 @@ McTwoCalls == [msgs |-> << <<T>>, <<F>> >>, ctl |-> << <<"ping", "pong">>, <<"cl
 \* two close senders and a closer
 McTwoClose == [msgs |-> << <<T, T, F>> >>, ctl |-> << <<"close">>, <<"close">> >>, closer |-> TRUE]
 
+\* control writes with a short deadline: they may give up waiting for the lock
+McTimeout    == [msgs |-> << <<T, F>> >>, ctl |-> << <<"ping~", "pong~">>, <<"close">> >>, closer |-> TRUE]
+McTimeoutBig == [msgs |-> << <<T, F>>, <<F>> >>, ctl |-> << <<"ping~", "pong~">>, <<"ping">>, <<"close~">> >>, closer |-> TRUE]
+
 \* thorough: longer data program, three control senders
 McBig == [msgs |-> << <<T, F>>, <<T>>, <<F, F>> >>, ctl |-> << <<"ping">>, <<"close">>, <<"pong">> >>, closer |-> TRUE]
 =============================================================================
